@@ -409,9 +409,11 @@ Let sent := read_sentinel cfg.
 Lemma ok_parts :
   resave_sentinel cfg = sent /\ names_ok cfg = true
   /\ steps_ok sent (load_names cfg) false (steps_full cfg) = true
-  /\ steps_ok sent (load_names cfg) true (steps_mesh cfg) = true.
+  /\ steps_ok sent (load_names cfg) true (steps_mesh cfg) = true
+  /\ resave_mesh_read cfg = false.
 Proof.
   pose proof OK as H. unfold cfg_ok in H.
+  apply andb_true_iff in H. destruct H as [H H5]. apply negb_true_iff in H5.
   apply andb_true_iff in H. destruct H as [H H4].
   apply andb_true_iff in H. destruct H as [H H3].
   apply andb_true_iff in H. destruct H as [H H2].
@@ -419,7 +421,7 @@ Proof.
 Qed.
 
 Lemma steps_ok_m : forall m, steps_ok sent (load_names cfg) m (steps cfg m) = true.
-Proof. intros m. destruct ok_parts as [_ [_ [F M]]]. destruct m; simpl; assumption. Qed.
+Proof. intros m. destruct ok_parts as [_ [_ [F [M _]]]]. destruct m; simpl; assumption. Qed.
 
 Definition complete (d : snap) (m : bool) (dr : dir) : Prop :=
   has sent dr = true /\ load cfg dr = Some (img d m).
@@ -487,24 +489,25 @@ Proof.
   - split; simpl; [|discriminate]. intros _. exists (img d m). auto.
 Qed.
 
-Lemma read_step : forall st dr crash,
+Lemma read_step : forall st dr m crash,
   Inv st dr ->
-  let '(r, dr') := do_read cfg src crash dr in
-  check_read src r st = true
+  let '(r, dr') := do_read cfg src m crash dr in
+  check_read src m r st = true
   /\ Inv (match r with
           | RParsed => {| must := false; allowed := img src false :: allowed st |}
           | _ => st
           end) dr'.
 Proof.
-  intros st dr crash I. unfold do_read. fold sent.
-  destruct ok_parts as [RS _]. rewrite RS.
+  intros st dr m crash I. unfold do_read. fold sent.
+  destruct ok_parts as [RS [_ [_ [_ RM]]]]. rewrite RS, RM.
   destruct (has sent dr) eqn:H.
-  - destruct I as [A B]. destruct (A H) as [x [Hx L]]. rewrite L. simpl. split.
-    + apply existsb_exists. exists x. split; auto. apply snap_eqb_refl.
-    + split; auto.
+  - destruct I as [A B]. destruct (A H) as [x [Hx L]]. unfold load_m. rewrite L.
+    destruct m; simpl; (split; [|split; auto]);
+      apply existsb_exists; exists x; (split; [exact Hx|apply snap_eqb_refl]).
   - simpl. split.
     + destruct I as [_ B]. destruct (must st) eqn:Mu; auto. specialize (B eq_refl). congruence.
-    + destruct crash as [k|].
+    + destruct m; [apply inv_grow; exact I|].
+      destruct crash as [k|].
       * apply (inv_after_crash st dr); auto. apply save_crash. exact WFsrc.
       * split; simpl; [|discriminate]. intros _. exists (img src false). split; auto.
         apply (save_complete src false dr WFsrc).
@@ -516,12 +519,12 @@ Lemma run_conforms : forall h st dr i,
 Proof.
   induction h as [|o h IH]; intros st dr i I WF; simpl; auto.
   simpl in WF. apply andb_true_iff in WF. destruct WF as [WFo WF].
-  destruct o as [|k|d m|d m k]; simpl.
-  - pose proof (read_step st dr None I) as R.
-    destruct (do_read cfg src None dr) as [r dr'] eqn:E. destruct R as [C I'].
+  destruct o as [rm|rm k|d m|d m k]; simpl.
+  - pose proof (read_step st dr rm None I) as R.
+    destruct (do_read cfg src rm None dr) as [r dr'] eqn:E. destruct R as [C I'].
     simpl. rewrite C. apply IH; auto.
-  - pose proof (read_step st dr (Some k) I) as R.
-    destruct (do_read cfg src (Some k) dr) as [r dr'] eqn:E. destruct R as [C I'].
+  - pose proof (read_step st dr rm (Some k) I) as R.
+    destruct (do_read cfg src rm (Some k) dr) as [r dr'] eqn:E. destruct R as [C I'].
     simpl. rewrite C. apply IH; auto.
   - apply IH; auto. simpl in WFo.
     destruct (save_complete d m dr WFo) as [C1 C2].
@@ -543,22 +546,37 @@ Qed.
 (* saving then reading loads exactly what was saved, whatever the directory
    held before (sentinel included) *)
 Theorem save_then_read_generic : forall d m dr0, wf_snap d = true ->
-  map fst (run cfg src [Save d m; Read] dr0) = [RNone; RLoaded (Some (img d m))].
+  map fst (run cfg src [Save d m; Read false] dr0) = [RNone; RLoaded (Some (img d m))].
 Proof.
   intros d m dr0 WF. simpl.
   destruct (save_complete d m dr0 WF) as [C1 C2].
-  unfold do_read. fold sent. rewrite C1, C2. reflexivity.
+  unfold do_read, load_m. fold sent. rewrite C1, C2. reflexivity.
 Qed.
 
 (* the second read of a source directory is served from the cache and
    returns what parsing returned *)
 Theorem cache_transparent_generic : forall dr0, has sent dr0 = false ->
-  map fst (run cfg src [Read; Read] dr0) = [RParsed; RLoaded (Some (img src false))].
+  map fst (run cfg src [Read false; Read false] dr0) = [RParsed; RLoaded (Some (img src false))].
 Proof.
   intros dr0 H. simpl. unfold do_read at 1. fold sent. rewrite H.
   destruct ok_parts as [RS _]. rewrite RS, H. simpl.
   destruct (save_complete src false dr0 WFsrc) as [C1 C2].
-  unfold do_read. fold sent. rewrite C1, C2. reflexivity.
+  unfold do_read, load_m. fold sent. rewrite C1, C2. reflexivity.
+Qed.
+
+(* a mesh-only read of a source directory does not leave a cache that a later
+   full read would be served from: the full read parses (and caches) the
+   source, and only then reads are served from the cache - the mesh-only ones
+   with the mesh part of it *)
+Theorem mesh_read_then_full_generic : forall dr0, has sent dr0 = false ->
+  map fst (run cfg src [Read true; Read false; Read false; Read true] dr0)
+  = [RParsed; RParsed; RLoaded (Some (img src false)); RLoaded (Some (img (img src false) true))].
+Proof.
+  intros dr0 H. simpl. unfold do_read at 1. fold sent. rewrite H.
+  destruct ok_parts as [RS [_ [_ [_ RM]]]]. rewrite RS, H, RM. simpl.
+  unfold do_read at 1. fold sent. rewrite H, RS, H. simpl.
+  destruct (save_complete src false dr0 WFsrc) as [C1 C2].
+  unfold do_read, load_m. fold sent. rewrite C1, C2. simpl. rewrite C1. reflexivity.
 Qed.
 End History.
 
